@@ -685,7 +685,7 @@ func (x *exec) mergeVals(conds []string, vs []*Val, stem string) *Val {
 // dangling references (A-WFHEAP — Go's memory safety). Without it a freshly allocated object could be
 // "found" behind an old field.
 func (x *exec) entryAlive(s *State, name, ref string, v *Val) {
-	if x.noAssume || v.Typ == nil || s.heap[name] != name+"@0" {
+	if v.Typ == nil || s.heap[name] != name+"@0" {
 		return
 	}
 	var r string
@@ -709,7 +709,23 @@ func (x *exec) entryAlive(s *State, name, ref string, v *Val) {
 		}
 		owner = strings.TrimSuffix(owner[i+1:], ")")
 	}
-	x.assume(s, Imp(Sel("alive@0", owner), Or(Eq(r, "0"), Sel("alive@0", r))))
+	fact := Imp(Sel("alive@0", owner), Or(Eq(r, "0"), Sel("alive@0", r)))
+	if x.noAssume {
+		// read inside a specification: the fact speaks of the entry heap only, so when it mentions no bound
+		// variable (quantifier or spec-function parameter) it holds globally in this proof
+		if strings.Contains(fact, "q.") || strings.Contains(fact, "sp!") || strings.Contains(fact, "hp!") {
+			return
+		}
+		if x.wfSeen == nil {
+			x.wfSeen = map[string]bool{}
+		}
+		if !x.wfSeen[fact] {
+			x.wfSeen[fact] = true
+			x.c.Axiom([]string{name + "@0"}, fact)
+		}
+		return
+	}
+	x.assume(s, fact)
 }
 
 // cloTerm gives a function literal (or named function) value a term: a non-nil constant of its own.
